@@ -120,7 +120,7 @@ func (c *corpus) input(r *rng, pLarge int) scn.Input {
 }
 
 var c11Ops = []string{"print", "dump", "dumpT", "dumpP", "dumpTP", "traverse", "resolve", "resolve", "print"}
-var siteClassNames = []string{"pool", "lexer-new", "lexer-helpers", "newlines", "scanner", "php7-actions", "php5-actions", "parser-glue", "position-builder", "printer", "dumper", "resolver", "traverser", "version", "errors"}
+var siteClassNames = []string{"cli", "pool", "lexer-new", "lexer-helpers", "newlines", "scanner", "php7-actions", "php5-actions", "parser-glue", "position-builder", "printer", "dumper", "resolver", "traverser", "version", "errors"}
 var knobs = []int{0, 0, 0, 0, 1, 2, 3, 5, 8, 64}
 
 func (r *rng) schedule(est int64, tasks int) scn.Sched {
@@ -167,10 +167,73 @@ func (r *rng) gcSteps(est int64) []int64 {
 	return out
 }
 
+// cliEnabled is cleared when the instrumented cmd/php-parser could not be
+// built: scenario C is then not generated.
+var cliEnabled = true
+
+var cliFlagSets = [][]string{{"-pb"}, {"-d"}, {"-r"}, {"-e"}, {"-p", "-e"}, {"-d", "-r"}, {"-pb", "-d"}, {"-p", "-e", "-r", "-d"}, {"-pb", "-e", "-r"}, {"-p"}, {}}
+var cliVersions = []string{"", "", "", "7.4", "7.0", "5.6", "7.2"}
+
+// genC11CLI: the real command-line program over a small tree of files.
+func genC11CLI(c *corpus, r *rng, seed uint64) *scn.Scenario {
+	s := &scn.Scenario{Prop: "C11", RunSeed: seed, Kind: "C"}
+	nf := r.pick([]int{1, 2, 2, 3, 3, 4, 5, 6, 8, 12})
+	pLarge := r.pick([]int{0, 0, 0, 3, 10})
+	split := r.chance(30)
+	for i := 0; i < nf; i++ {
+		var in scn.Input
+		if i > 0 && r.chance(10) {
+			in = s.Inputs[r.n(i)] // the same content under another name
+			in.Src = append([]byte(nil), in.Src...)
+		} else {
+			in = c.input(r, pLarge)
+		}
+		in.Version, in.Callback = "", true
+		dir := ""
+		if split {
+			dir = "d" + string(rune('0'+r.n(2))) + "/"
+		} else if r.chance(25) {
+			dir = "sub/"
+		}
+		in.Path = dir + "f" + string(rune('a'+i/10)) + string(rune('0'+i%10)) + ".php"
+		s.Inputs = append(s.Inputs, in)
+	}
+	if split {
+		seen := map[string]bool{}
+		for _, in := range s.Inputs {
+			d := in.Path[:2]
+			if !seen[d] {
+				seen[d] = true
+				s.CLIPaths = append(s.CLIPaths, d)
+			}
+		}
+		sort.Strings(s.CLIPaths)
+	}
+	s.CLIFlags = append([]string(nil), cliFlagSets[r.n(len(cliFlagSets))]...)
+	if v := cliVersions[r.n(len(cliVersions))]; v != "" {
+		s.CLIFlags = append(s.CLIFlags, "-phpver", v)
+	}
+	s.Workers = r.pick([]int{1, 2, 2, 3, 4, 4, 8})
+	var est int64 = 2000
+	for _, in := range s.Inputs {
+		est += int64(150 * len(in.Src))
+	}
+	s.Sched = r.schedule(est, s.Workers+2)
+	if s.Sched.Mode == 3 && r.chance(50) {
+		s.Sched.SiteClass = "cli"
+	}
+	s.Knob = knobs[r.n(len(knobs))]
+	s.Faults = scn.Faults{Seed: r.next(), GCSteps: r.gcSteps(est)}
+	return s
+}
+
 func genC11(c *corpus, seed uint64) *scn.Scenario {
 	r := &rng{seed}
 	s := &scn.Scenario{Prop: "C11", RunSeed: seed, Kind: "A"}
-	if r.chance(40) {
+	switch x := r.n(100); {
+	case x < 25 && cliEnabled:
+		return genC11CLI(c, r, seed)
+	case x < 55:
 		s.Kind = "B"
 	}
 	nt := r.pick([]int{2, 2, 2, 3, 3, 4, 4, 5, 6, 8})
